@@ -1,14 +1,266 @@
 (* C05 — secp256k1 sign/recover are mutually consistent under every V convention.
-   Statements only; proofs live in Crypto/Ecdsa.v and Secp/Proofs.v. *)
+   Statements only; proofs live in Crypto/Ecdsa.v and Secp/Proofs.v.
+
+   Every theorem is about the Gallina model of pkg/secp256k1 (Secp/Model.v) and holds
+     for every group [o] satisfying Ecdsa.laws whose order fits 32 bytes   (secp256k1: trusted fact),
+     for every hash function [H] with 32-byte output                         (Keccak-256),
+     for every nonce stream [nonce] and retry bound [fuel]                   (btcec's RFC 6979),
+     for every private key 1 <= d < n, every message / digest (any byte string), every chain id in
+     [0, 2^53] and every integer V.  Nothing is bounded. *)
 From Coq Require Import ZArith List Bool.
-From FFS Require Import Base.Res Base.Bytes Crypto.Ecdsa Secp.Model.
+From Coq Require Import Init.Byte.
+From FFS Require Import Base.Res Base.Bytes Crypto.Ecdsa Secp.Model Secp.Spec Secp.Proofs.
 Import ListNotations.
 Local Open Scope Z_scope.
 
-(* ECDSA core: recovery from a signature returns the signer's public key. *)
+(* 0. The ECDSA core over the abstract group: recovery from a signature returns the signer's key. *)
 Theorem C05_ecdsa_recover_sign :
   forall o, laws o -> forall d z k sg,
     d mod n o <> 0 -> ecdsa_sign o d z k = Some sg -> es_ovf sg = false ->
     ecdsa_recover o z (es_r sg) (es_s sg) (es_odd sg) = Some (pub o d).
 Proof. exact recover_sign. Qed.
 Print Assumptions C05_ecdsa_recover_sign.
+
+(* 1. Shape of a signature: V in 27..30, R and S in [1, n-1], S in the lower half, and the signature
+      verifies against the key.  (Sign = SignDirect on H message, by definition.) *)
+Theorem C05_sign_shape :
+  forall o, laws o -> n o < two256 -> forall nonce fuel d msg sg,
+    SignDirect o nonce fuel d msg = Ok sg ->
+    (sV sg = 27 \/ sV sg = 28 \/ sV sg = 29 \/ sV sg = 30) /\
+    1 <= sR sg < n o /\ 1 <= sS sg < n o /\ 2 * sS sg <= n o /\
+    ecdsa_verify o (pub o d) (hash_to_z msg) (sR sg) (sS sg) = true.
+Proof. intros o L Hn nonce fuel. exact (SignDirect_shape o L Hn nonce fuel). Qed.
+Print Assumptions C05_sign_shape.
+
+(* 1'. "V in {27,28}" is PARTIAL: it holds exactly when no nonce point has an x coordinate >= n (for
+      secp256k1 a fraction 2^-128 of the points; btcec then emits recovery code 2/3, i.e. V = 29/30,
+      and Recover rejects that V).  The hypothesis cannot be discharged from group laws. *)
+Theorem C05_sign_V_27_28_partial :
+  forall o, laws o -> n o < two256 -> forall nonce fuel d msg sg,
+    (forall j, xcoord o (smul o (nonce d msg j) (G o)) < n o) ->
+    SignDirect o nonce fuel d msg = Ok sg -> sV sg = 27 \/ sV sg = 28.
+Proof. intros o L Hn nonce fuel. exact (SignDirect_V_27_28 o L Hn nonce fuel). Qed.
+Print Assumptions C05_sign_V_27_28_partial.
+
+(* 2. Recovery returns exactly the signer's address under all three conventions: V as produced
+      (27/28, with any chain id), after UpdateEIP2930 (0/1), after UpdateEIP155 c (35 + 2c + parity)
+      with the same chain id c, for every 0 <= c <= 2^53. *)
+Theorem C05_recover_all_conventions :
+  forall o, laws o -> n o < two256 -> forall H, (forall x, length (H x) = 32%nat) ->
+  forall nonce fuel d msg sg c c',
+    1 <= d < n o -> 0 <= c <= 2 ^ 53 -> is_int64 c' = true ->
+    SignDirect o nonce fuel d msg = Ok sg -> (sV sg = 27 \/ sV sg = 28) ->
+    RecoverDirect o H sg msg c' = Ok (addr_of o H (pub o d)) /\
+    RecoverDirect o H (UpdateEIP2930 sg) msg c' = Ok (addr_of o H (pub o d)) /\
+    RecoverDirect o H (UpdateEIP155 sg c) msg c = Ok (addr_of o H (pub o d)) /\
+    sV (UpdateEIP2930 sg) = spec_V YParity c (sV sg - 27) /\
+    sV (UpdateEIP155 sg c) = spec_V Eip155 c (sV sg - 27).
+Proof. intros o L Hn H HH nonce fuel. exact (recover_all_conventions o L Hn H HH nonce fuel). Qed.
+Print Assumptions C05_recover_all_conventions.
+
+(* 2'. The same through the hashing entry points. *)
+Theorem C05_sign_recover_hashing :
+  forall o, laws o -> n o < two256 -> forall H, (forall x, length (H x) = 32%nat) ->
+  forall nonce fuel d message sg c,
+    1 <= d < n o -> 0 <= c <= 2 ^ 53 ->
+    Sign o H nonce fuel d message = Ok sg -> (sV sg = 27 \/ sV sg = 28) ->
+    Recover o H sg message c = Ok (addr_of o H (pub o d)) /\
+    Recover o H (UpdateEIP2930 sg) message c = Ok (addr_of o H (pub o d)) /\
+    Recover o H (UpdateEIP155 sg c) message c = Ok (addr_of o H (pub o d)).
+Proof.
+  intros o L Hn H HH nonce fuel d message sg c Hd Hc E HV.
+  assert (Hc' : is_int64 c = true).
+  { apply is_int64_iff. change (2 ^ 53) with 9007199254740992 in Hc. unfold two63. split; [|apply Z.le_lt_trans with 9007199254740992]; try apply Hc; try reflexivity. apply Z.le_trans with 0; [discriminate|apply Hc]. }
+  destruct (recover_all_conventions o L Hn H HH nonce fuel d (H message) sg c c Hd Hc Hc' E HV) as (A & B & C & _).
+  repeat split; assumption.
+Qed.
+Print Assumptions C05_sign_recover_hashing.
+
+(* 3. Which V are accepted, exactly: getVNormalized (hence RecoverDirect) gets past V normalisation
+      iff [v_norm V c] is defined -- V fits int64 and is 0, 1, 27, 28 or has
+      (V - 8 - 2c) mod 256 in {27, 28}; it never panics. *)
+Theorem C05_V_accepted_exactly :
+  forall sg c, getVNormalized sg c = match v_norm (sV sg) c with Some b => Ok b | None => Err EInvalidV end.
+Proof. exact getVNormalized_spec. Qed.
+Print Assumptions C05_V_accepted_exactly.
+
+(* 3'. Every other V in Z is an error -- PARTIAL: outside the six legitimate values AND outside the
+      region of known finding C05/v-truncated-to-byte ([v_alias]: V within int64, congruent mod 256
+      to 35 + 2c + p but different from it). *)
+Theorem C05_other_V_rejected_partial :
+  forall o, laws o -> forall H, (forall x, length (H x) = 32%nat) -> forall sg msg c,
+    (forall p, (p = 0 \/ p = 1) -> ~ legit_V p c (sV sg)) -> ~ v_alias (sV sg) c ->
+    RecoverDirect o H sg msg c = Err EInvalidV.
+Proof. intros o L H HH. exact (other_V_rejected_partial o L H HH). Qed.
+Print Assumptions C05_other_V_rejected_partial.
+
+(* 3''. The full clause "any other V never yields the signer's address" is REFUTED for the model of
+      the code as it is (the package's own test depends on this behaviour, so it is not repaired): for
+      every genuine signature and chain id, every V = 35 + 2c + parity + 256 j (j <> 0) inside int64
+      that is not 0/1/27/28 is none of the legitimate values and recovers the signer's address. *)
+Theorem C05_other_V_refuted :
+  forall o, laws o -> n o < two256 -> forall H, (forall x, length (H x) = 32%nat) ->
+  forall nonce fuel d msg sg c j,
+    1 <= d < n o -> 0 <= c <= 2 ^ 53 -> SignDirect o nonce fuel d msg = Ok sg -> (sV sg = 27 \/ sV sg = 28) ->
+    j <> 0 -> is_int64 (35 + 2 * c + (sV sg - 27) + 256 * j) = true ->
+    let V := 35 + 2 * c + (sV sg - 27) + 256 * j in
+    V <> 0 -> V <> 1 -> V <> 27 -> V <> 28 ->
+    (forall p, (p = 0 \/ p = 1) -> ~ legit_V p c V) /\
+    RecoverDirect o H (with_V sg V) msg c = Ok (addr_of o H (pub o d)).
+Proof. intros o L Hn H HH nonce fuel. exact (other_V_refuted o L Hn H HH nonce fuel). Qed.
+Print Assumptions C05_other_V_refuted.
+
+(* 4. Tampering.  [other_key o H d a]: a is the address of a public key different from the signer's,
+      whose 64-byte encoding differs from the signer's -- so a equals the signer's address only if the
+      last 20 bytes of H collide on these two exhibited inputs. *)
+
+(* 4a. V of the opposite parity, in whichever convention (any V that normalises to the other value). *)
+Theorem C05_tamper_flip_parity :
+  forall o, laws o -> n o < two256 -> forall H, (forall x, length (H x) = 32%nat) ->
+  forall nonce fuel d msg sg V c a,
+    1 <= d < n o -> SignDirect o nonce fuel d msg = Ok sg -> (sV sg = 27 \/ sV sg = 28) ->
+    v_norm V c = Some (55 - sV sg) ->
+    RecoverDirect o H (with_V sg V) msg c = Ok a -> other_key o H d a.
+Proof.
+  intros o L Hn H HH nonce fuel d msg sg V c a Hd E HV.
+  exact (tamper_flip_parity o L Hn H HH nonce fuel d msg sg Hd E HV V c a).
+Qed.
+Print Assumptions C05_tamper_flip_parity.
+
+(* 4b. S altered to any other integer (V in any accepted form, R and the message unchanged). *)
+Theorem C05_tamper_S :
+  forall o, laws o -> n o < two256 -> forall H, (forall x, length (H x) = 32%nat) ->
+  forall nonce fuel d msg sg s' V c a,
+    1 <= d < n o -> SignDirect o nonce fuel d msg = Ok sg -> (sV sg = 27 \/ sV sg = 28) ->
+    s' <> sS sg -> v_norm V c = Some (sV sg) ->
+    RecoverDirect o H {| sV := V; sR := sR sg; sS := s' |} msg c = Ok a -> other_key o H d a.
+Proof.
+  intros o L Hn H HH nonce fuel d msg sg s' V c a Hd E HV.
+  exact (tamper_S o L Hn H HH nonce fuel d msg sg Hd E HV s' V c a).
+Qed.
+Print Assumptions C05_tamper_S.
+
+(* 4c. A different message: any digest not congruent to the signed one modulo n.  (Two 32-byte digests
+      congruent mod n are the same ECDSA message; that is ECDSA, not a defect.) *)
+Theorem C05_tamper_message :
+  forall o, laws o -> n o < two256 -> forall H, (forall x, length (H x) = 32%nat) ->
+  forall nonce fuel d msg sg msg' V c a,
+    1 <= d < n o -> SignDirect o nonce fuel d msg = Ok sg -> (sV sg = 27 \/ sV sg = 28) ->
+    hash_to_z msg' mod n o <> hash_to_z msg mod n o -> v_norm V c = Some (sV sg) ->
+    RecoverDirect o H (with_V sg V) msg' c = Ok a -> other_key o H d a.
+Proof.
+  intros o L Hn H HH nonce fuel d msg sg msg' V c a Hd E HV.
+  exact (tamper_message o L Hn H HH nonce fuel d msg sg Hd E HV msg' V c a).
+Qed.
+Print Assumptions C05_tamper_message.
+
+(* 4d. R altered -- PARTIAL.  "Never the signer" is not a consequence of the group laws (see
+      C05_tamper_R_not_algebraic below: in a group satisfying the laws an altered R does recover the
+      signer).  Proved: if an altered R still yields the signer's key, then (R', S) is a second valid
+      signature of the same digest under that key -- excluded for secp256k1 only by the hardness of
+      the discrete logarithm.  The correspondence run exercises R+1 and swapped R/S. *)
+Theorem C05_tamper_R_partial :
+  forall o, laws o -> n o < two256 -> forall H, (forall x, length (H x) = 32%nat) ->
+  forall d msg s r' V c a,
+    1 <= d < n o ->
+    RecoverDirect o H {| sV := V; sR := r'; sS := s |} msg c = Ok a ->
+    other_key o H d a \/ ecdsa_verify o (pub o d) (hash_to_z msg) r' s = true.
+Proof.
+  intros o L Hn H HH d msg s r' V c a Hd E.
+  destruct (RecoverDirect_ok o L H HH _ _ _ _ E) as (vB & Q & _ & _ & ER & HQ & ->). cbn [sV sR sS] in ER.
+  destruct (generated o L Q) as [q ->]. destruct (Z.eq_dec (q mod n o) (d mod n o)) as [Eq|Nq].
+  - right. apply (smulG_eq o L) in Eq. rewrite Eq in ER. exact (recover_sound o L _ _ _ _ _ ER).
+  - left. apply (other_key_intro o L H); auto. intros Eq. apply Nq. apply (smulG_eq o L). exact Eq.
+Qed.
+Print Assumptions C05_tamper_R_partial.
+
+Theorem C05_tamper_R_not_algebraic :
+  exists o, laws o /\ exists d z k sg r',
+    1 <= d < n o /\ ecdsa_sign o d z k = Some sg /\ es_ovf sg = false /\ r' <> es_r sg /\
+    ecdsa_recover o z r' (es_s sg) (es_odd sg) = Some (pub o d).
+Proof.
+  exists Toy.ops. split; [exact Toy.toy_laws|].
+  destruct Toy.toy_altered_R_recovers_signer as (sg & E & Hr & Hov & R).
+  exists 5, 7, 3, sg, 4. repeat split; try assumption; try reflexivity. rewrite Hr. discriminate.
+Qed.
+Print Assumptions C05_tamper_R_not_algebraic.
+
+(* 4e. Recorded so that it is not mistaken for a defect: altering S and the parity together
+      (S -> n - S, V flipped) is ECDSA malleability and does recover the signer. *)
+Theorem C05_malleable_twin :
+  forall o, laws o -> forall d z k sg,
+    d mod n o <> 0 -> ecdsa_sign o d z k = Some sg -> es_ovf sg = false ->
+    ecdsa_recover o z (es_r sg) (n o - es_s sg) (negb (es_odd sg)) = Some (pub o d).
+Proof. exact recover_malleable_twin. Qed.
+Print Assumptions C05_malleable_twin.
+
+(* 5. Recovery is total (an error, never a panic) for every integer V, R, S, every message and chain id. *)
+Theorem C05_recover_total :
+  forall o, laws o -> forall H, (forall x, length (H x) = 32%nat) -> forall sg msg c,
+    RecoverDirect o H sg msg c <> Panic.
+Proof. intros o L H HH. exact (RecoverDirect_total o L H HH). Qed.
+Print Assumptions C05_recover_total.
+
+(* 6. The 65-byte compact form R(32) || S(32) || V(1) round-trips; any other length is rejected; every
+      65-byte string decodes and re-encodes to itself; CompactRSV panics exactly when R or S needs
+      more than 32 bytes. *)
+Theorem C05_compact_roundtrip :
+  (forall sg, 0 <= sR sg < two256 -> 0 <= sS sg < two256 -> 0 <= sV sg < 256 ->
+     exists b, CompactRSV sg = Ok b /\ length b = 65%nat /\ DecodeCompactRSV b = Ok sg /\
+               b = be_fixed 32 (sR sg) ++ be_fixed 32 (sS sg) ++ be_fixed 1 (sV sg)) /\
+  (forall b, length b <> 65%nat -> DecodeCompactRSV b = Err ELen) /\
+  (forall b, length b = 65%nat ->
+     exists sg, DecodeCompactRSV b = Ok sg /\ 0 <= sR sg < two256 /\ 0 <= sS sg < two256 /\ 0 <= sV sg < 256 /\
+                CompactRSV sg = Ok b) /\
+  (forall sg, CompactRSV sg = Panic <-> (two256 <= Z.abs (sR sg) \/ two256 <= Z.abs (sS sg))).
+Proof.
+  split; [exact compact_roundtrip|]. split; [exact decode_compact_length|].
+  split; [exact decode_compact_total|exact compact_panics_iff].
+Qed.
+Print Assumptions C05_compact_roundtrip.
+
+(* 7. The address of a key pair is the last 20 bytes of H of the uncompressed public key without its
+      0x04 byte, i.e. of X || Y (Spec.spec_address); the private scalar is the first 32 key bytes mod n. *)
+Theorem C05_address :
+  forall o, laws o -> forall H, (forall x, length (H x) = 32%nat) -> forall b,
+    exists kp, KeyPairFromBytes o H b = Ok kp /\
+      kp_priv o kp = of_be (firstn 32 b) mod n o /\ kp_pub o kp = pub o (kp_priv o kp) /\
+      kp_addr o kp = lastn 20 (H (skipn 1 (SerializeUncompressed o (kp_pub o kp)))) /\
+      kp_addr o kp = spec_address H (xcoord o (kp_pub o kp)) (ycoord o (kp_pub o kp)) /\
+      length (kp_addr o kp) = 20%nat /\
+      PublicKeyBytes o kp = Ok (skipn 1 (SerializeUncompressed o (kp_pub o kp))).
+Proof.
+  intros o L H HH b. destruct (KeyPairFromBytes_address o H HH b) as (kp & E & A & B & C & D & F).
+  exists kp. repeat split; try assumption.
+  rewrite C. change (lastn 20 (H (skipn 1 (SerializeUncompressed o (kp_pub o kp))))) with (addr_of o H (kp_pub o kp)).
+  apply addr_of_spec. exact HH.
+Qed.
+Print Assumptions C05_address.
+
+(* ---------------------------------------------------------------------------------------------
+   Non-vacuity: the hypotheses are satisfiable.  Toy.ops (Z/13 with elliptic-curve-like
+   coordinates) satisfies [laws] (Ecdsa.Toy.toy_laws); with a 32-byte "hash", key 5 and nonce 3 the
+   model signs, the signature has V = 28 and recovers under the three conventions for chain id
+   2^53, and a V in the aliasing region exists. *)
+Definition toyH (x : bytes) : bytes := firstn 32 (x ++ repeat x00 32).
+Lemma toyH_len x : length (toyH x) = 32%nat.
+Proof. unfold toyH. rewrite firstn_length, app_length, repeat_length. apply Nat.min_l. apply Nat.le_add_l. Qed.
+
+Example C05_nonvacuous :
+  laws Toy.ops /\ n Toy.ops < two256 /\
+  exists sg, SignDirect Toy.ops (fun _ _ _ => 3) 1 5 [x07] = Ok sg /\ sV sg = 28 /\
+    (forall j, xcoord Toy.ops (smul Toy.ops ((fun _ _ _ => 3) 5 [x07] j) (G Toy.ops)) < n Toy.ops) /\
+    RecoverDirect Toy.ops toyH (UpdateEIP155 sg (2 ^ 53)) [x07] (2 ^ 53) = Ok (addr_of Toy.ops toyH (pub Toy.ops 5)) /\
+    v_alias (35 + 2 * 5 + 1 + 256) 5 /\ v_norm 29 0 = None.
+Proof.
+  split; [exact Toy.toy_laws|]. split; [reflexivity|].
+  destruct (SignDirect Toy.ops (fun _ _ _ => 3) 1 5 [x07]) as [sg| |] eqn:E; try (vm_compute in E; discriminate).
+  exists sg. split; [reflexivity|].
+  assert (HV : sV sg = 28) by (vm_compute in E; injection E as <-; reflexivity).
+  split; [exact HV|]. split; [intros j; vm_compute; reflexivity|]. split.
+  - refine (proj1 (proj2 (proj2 (recover_all_conventions Toy.ops Toy.toy_laws eq_refl toyH toyH_len _ 1%nat 5 [x07] sg (2 ^ 53) 0 _ _ eq_refl E _)))).
+    + split; [discriminate|reflexivity].
+    + split; discriminate.
+    + right; exact HV.
+  - split; [|reflexivity]. unfold v_alias. repeat split; try discriminate. exists 1, 1. repeat split; auto. discriminate.
+Qed.
